@@ -271,7 +271,63 @@ def c05_loopless(E, templates=(("T3", ("R2",)), ("T3", ("R1",)), ("T10", ("R3",)
                            "loopless-range-tight", reaction=rid, what=what)
 
 
+def c05_unbounded(E):
+    """a requested reaction without a finite extreme (a cycle whose reactions have no upper bound) among reactions that have one:
+    the call may refuse (OptimizationError) or report an infinity on exactly that side - every other reported number is still
+    the true extreme, whatever the position of the unbounded reaction in the list (sixth seed round)"""
+    import math
+    env.for_path(E)
+    m = networks.build("T3")
+    networks.symbolic_bounds(E, m, which=["EX_A"])
+    for rid in E.pick("cycle_without_upper_bounds", ["R1+R2", "R2+R3"]).split("+"):
+        m.reactions.get_by_id(rid).upper_bound = float("inf")
+    obj = {"DM_B": 1}
+    m.objective = {m.reactions.DM_B: 1}
+    fraction = E.pick("fraction", (1, 0))
+    ids = list(E.pick("reaction_list", [("R2", "DM_B"), ("DM_B", "R2"), ("R1", "EX_A", "R3"), ("EX_A", "R3", "R2", "DM_B")]))
+    E.note(reaction_list=ids, fraction=str(fraction))
+    status, opt, setp = oracle_set(E, m, obj, "max", fraction)
+    if status != "optimal":
+        return
+    lp, P = setp
+    lp2 = lp.copy("rec")
+    lp2.add_row("keep_objective", obj, rv(Fraction(fraction)) * opt, None)
+    infinite = {(rid, sgn): lp2._unbounded({rid: 1}, sgn) for rid in ids for sgn in (-1, 1)}
+    before = observe(m)
+    try:
+        res = flux_variability_analysis(m, reaction_list=ids, fraction_of_optimum=float(fraction), processes=1)
+        raised = None
+    except OptimizationError as e:
+        res, raised = None, e
+    same(E, before, observe(m), "model-unchanged", what="fva-unbounded")
+    if raised is not None:
+        E.prove(any(infinite.values()), "refuses-only-when-a-requested-extreme-is-infinite", got=repr(raised))
+        return
+    v = lp.fresh_point(E, "any")
+    Pv = P(v)
+    for rid in ids:
+        for sgn, col in ((-1, "minimum"), (1, "maximum")):
+            val = res.at[rid, col]
+            isinf = isinstance(val, float) and math.isinf(val)
+            if infinite[(rid, sgn)]:
+                E.prove(isinf and (val > 0) == (sgn > 0), "infinite-extreme-reported-as-infinite", reaction=rid, what=col, got=str(val))
+                continue
+            E.prove(not isinf, "finite-extreme-reported-finite", reaction=rid, what=col, got=str(val))
+            if isinf:
+                continue
+            E.prove(z3.Implies(Pv, lift(val) <= v[rid] if sgn < 0 else v[rid] <= lift(val)) if E.symbolic else
+                    z3.Implies(Pv, lift(val) - rv(E.tol) <= v[rid] if sgn < 0 else v[rid] <= lift(val) + rv(E.tol)),
+                    "range-sound[unbounded-neighbour]", reaction=rid, what=col)
+            w = lp.fresh_point(E, "att_%s_%s" % (col, rid))
+            E.prove_exists(list(w.values()), z3.And(P(w), zbool_eq(E, w[rid], val)), "range-tight[unbounded-neighbour]",
+                           reaction=rid, what=col)
+
+
 HARNESSES = [
+    H("c05_unbounded", c05_unbounded, quick=dict(max_paths=2000, time_budget=40), thorough=dict(max_paths=20000, time_budget=120),
+      bounds="T3 with the upper bounds of one 2-cycle (R1/R2 or R2/R3) infinite, EX_A's bounds symbolic in [-10,10]; fraction in {1,0}; "
+             "4 reaction lists with the unbounded reaction first, last or in the middle; the call may raise or report infinities on the "
+             "sides the oracle's recession cone makes infinite, every other number is proved sound and tight"),
     H("c05_fva", c05_fva, tiers=("quick",), quick=dict(max_paths=8000, time_budget=80),
       bounds="T1 all flux bounds symbolic, T2 first 3, T3 first 2 reactions symbolic (others at template values); bounds in "
              "[-10,10], lb<=ub; objective x max/min; fraction in {1,1/2,0} (optimum sign assumed for fraction<1); "
